@@ -8,6 +8,7 @@ Partial by design (DESIGN §4 C05): the end-to-end claim is only *searched*; pro
      (d) checkBlock_sound                 the verified error-edge checker
      (e) isMethodFinal_sound              ClassIR.is_method_final over the transitive subclass closure
      (f) forZip_takes_what_zip_takes      ForZip's exit-test order vs zip()'s left-to-right pulls
+     (g) tryLowering_eq_python            handler scope = try body only ⇒ the emitted try statement behaves like CPython's
 2. Ties, re-checked on every run:
      (a) vt.py    generated hierarchies through the real front half: ClassIR tables vs the model, entry by entry;
                   the real tables' dispatch vs CPython's own lookup
@@ -23,6 +24,13 @@ Partial by design (DESIGN §4 C05): the end-to-end claim is only *searched*; pro
    static type × ==, !=, truthiness, `in`, str()… × instances of every subclass (is_method_final: Lean model + tie in vt.py);
    zipb.py — zip / enumerate / comprehension loops over all pairs of operand kinds × all length combinations, with
    the state of iterator / generator operands observed afterwards (ForZip: Lean model + tie);
+   flow.py — try/except/else/finally/with/loop control flow: every clause with a guarded raise (matching / not matching the
+   statement's own handlers) / return / break / continue, all firing combinations, event logs (try lowering: Lean model
+   TryScope + handler scope read off the final IR);
+   callb.py — interpreted callers into __init__ (legacy getargs parser), methods, classmethods, staticmethods, __call__,
+   bound methods, interpreted subclasses: all parameter kinds × call shapes, bound values / TypeError vs the twin;
+   alias.py — identity and aliasing of every list / dict / set / bytearray producing primitive (result is operand, mutate
+   the result, compare the operands' final state);
    strb.py — every str / bytes primitive over an alphabet of all ASCII characters, non-ASCII white space, case-mapping
    specials and plane boundaries.
 A compiled ≠ CPython observation is a concrete failure of C05: KNOWN-FINDING when it matches a listed class exactly,
@@ -35,10 +43,11 @@ from concurrent.futures import ThreadPoolExecutor
 
 from harness.vlib.core import Ctx
 from harness.c05.front import flush_nf
+from harness.c05 import alias, callb, flow
 from harness.c05 import bind, dun, edges, fr, ops, prog, strb, vt, zipb
 
 MODEL_FILES = ["MypyVerif/Model/VTable.lean", "MypyVerif/Model/ForRange.lean", "MypyVerif/Model/ErrEdges.lean",
-               "MypyVerif/Model/ForZip.lean", "MypyVerif/Proofs/ForZip.lean",
+               "MypyVerif/Model/ForZip.lean", "MypyVerif/Proofs/ForZip.lean", "MypyVerif/Model/TryScope.lean",
                "MypyVerif/Proofs/VTable.lean", "MypyVerif/Proofs/ForRange.lean", "MypyVerif/Proofs/ErrEdges.lean",
                "MypyVerif/Model/PyBind.lean", "MypyVerif/Model/ArgMap.lean"]
 
@@ -71,12 +80,13 @@ def main(ctx: Ctx) -> None:
         # phase 1 of each part generates its inputs and submits its C compiles (≤ 6 at a time); the in-process
         # vtable part runs while they compile; phase 2 drives the compiled modules
         parts = [fr.run(ctx, pool, col), bind.run(ctx, pool, col), ops.run(ctx, pool, col), dun.run(ctx, pool, col),
-                 zipb.run(ctx, pool, col), strb.run(ctx, pool, col), prog.run(ctx, pool, col)]
+                 zipb.run(ctx, pool, col), strb.run(ctx, pool, col), prog.run(ctx, pool, col),
+                 flow.run(ctx, pool, col), callb.run(ctx, pool, col), alias.run(ctx, pool, col)]
         for g in parts:
             next(g)
         vt.run(ctx, col)
         # phase 2 (no randomness left in it): the batteries first, the parts with many known findings last
-        for g in [parts[3], parts[4], parts[5], parts[2], parts[6], parts[0], parts[1]]:
+        for g in [parts[9], parts[7], parts[8], parts[3], parts[4], parts[5], parts[2], parts[6], parts[0], parts[1]]:
             next(g, None)
     edges.check(ctx, col)
     flush_nf(ctx)
@@ -105,6 +115,12 @@ def replay(ctx: Ctx, path: str) -> int:
         zipb.replay(ctx, det)
     elif kind == "strb":
         strb.replay(ctx, det)
+    elif kind == "flow":
+        flow.replay(ctx, det)
+    elif kind == "callb":
+        callb.replay(ctx, det)
+    elif kind == "alias":
+        alias.replay(ctx, det)
     elif kind == "edges":
         print(det.get("ir", ""))
     else:
